@@ -20,9 +20,9 @@ from .common import build_map, di_matches, eff_fv, float_matches, frac_to_di, li
 
 
 class V2(object):
-    def __init__(self, ctx, prefix="o"):
+    def __init__(self, ctx, prefix="o", omap=None):
         self.ctx = ctx
-        self.o = build_map(ctx, prefix, v2.VALUES, v2.BASE)
+        self.o = build_map(ctx, prefix, v2.VALUES, v2.BASE) if omap is None else omap(ctx, v2.VALUES)
         e = {}
         for m in v2.BASE:
             e[m] = eff_fv(self.o, m, v2.VALUES[m])
@@ -272,3 +272,239 @@ class Scores2(V2Contract):
     def effect(self, eng, st, args, kwargs):
         v = view_of(args[0])
         return tuple(lift(lambda x: None if x is None else x.numerator / x.denominator, v.spec(n)) for n in ("base", "temporal", "env"))
+
+
+# ============================================================================================
+# accessors (object fully constructed: WF2)
+
+import re as _re  # noqa: E402
+
+from pyvc import strings as S  # noqa: E402
+from pyvc.sym import SBool, SInt, SStr, FV, eq_z3, fv_apply  # noqa: E402
+from spec import names as N  # noqa: E402
+from spec import jsonschema as JS  # noqa: E402
+from .common import canon_string, strings_equal, field_fv, defined_guard, json_doc_obligations  # noqa: E402
+
+
+def canon2(v):
+    return canon_string("", v.o, v2.ORDER, "ND")
+
+
+def sev2(v, n):
+    return lift(v2.severity, v.spec(n))
+
+
+def score_str2(v, n):
+    return lift(lambda x: "%.1f" % float(x), v.spec(n))
+
+
+class Accessor2(V2Contract):
+    phase = "done"
+    modifies = frozenset()
+
+
+@register
+class Severities2(Accessor2):
+    qualname = "CVSS2.severities"
+
+    def check_return(self, ctx, value):
+        v = ctx.data["v2"]
+        if not (isinstance(value, tuple) and len(value) == 3):
+            ctx.fail("post:shape", "severities() does not return a 3-tuple")
+            return
+        for x, n in zip(value, ("base", "temporal", "env")):
+            ctx.prove("post:%s" % n, eq_z3(x, sev2(v, n)),
+                      "the %s rating follows the NVD scale ('None' for an undefined score)" % n)
+
+    def effect(self, eng, st, args, kwargs):
+        v = view_of(args[0])
+        return tuple(sev2(v, n) for n in ("base", "temporal", "env"))
+
+
+@register
+class CleanVector2(Accessor2):
+    qualname = "CVSS2.clean_vector"
+
+    def check_return(self, ctx, value):
+        v = ctx.data["v2"]
+        if not isinstance(value, (str, SStr, FV)):
+            ctx.fail("post:type", "clean_vector() does not return a string")
+            return
+        ctx.prove("post:canonical", strings_equal(value, canon2(v)),
+                  "every defined metric once, in specification order, joined by '/'")
+
+    def effect(self, eng, st, args, kwargs):
+        if len(args) > 1 or kwargs:
+            return NotImplemented
+        return canon2(view_of(args[0]))
+
+
+@register
+class RhVector2(Accessor2):
+    qualname = "CVSS2.rh_vector"
+
+    def check_return(self, ctx, value):
+        v = ctx.data["v2"]
+        spec = S.concat(S.concat(score_str2(v, "base"), "/"), canon2(v))
+        ctx.prove("post:rh", strings_equal(value, spec), "base score with one decimal + '/' + cleaned vector")
+
+    def effect(self, eng, st, args, kwargs):
+        v = view_of(args[0])
+        return S.concat(S.concat(score_str2(v, "base"), "/"), canon2(v))
+
+
+def subvector2(v, metrics):
+    return S.join("/", [field_fv(m, v.e[m]) for m in metrics])
+
+
+@register
+class TemporalVector2(Accessor2):
+    qualname = "CVSS2.temporal_vector"
+
+    def check_return(self, ctx, value):
+        ctx.prove("post:temporal_vector", strings_equal(value, subvector2(ctx.data["v2"], v2.TEMPORAL)),
+                  "E, RL, RC in order with the given value or ND")
+
+    def effect(self, eng, st, args, kwargs):
+        return subvector2(view_of(args[0]), v2.TEMPORAL)
+
+
+@register
+class EnvironmentalVector2(Accessor2):
+    qualname = "CVSS2.environmental_vector"
+
+    def check_return(self, ctx, value):
+        ctx.prove("post:environmental_vector",
+                  strings_equal(value, subvector2(ctx.data["v2"], v2.ENVIRONMENTAL)),
+                  "CDP, TD, CR, IR, AR in order with the given value or ND")
+
+    def effect(self, eng, st, args, kwargs):
+        return subvector2(view_of(args[0]), v2.ENVIRONMENTAL)
+
+
+def json_name2(text):
+    return text.upper().replace("-", "_").replace(" ", "_")
+
+
+@register
+class GetValueDescription2(Accessor2):
+    qualname = "CVSS2.get_value_description"
+    cases = tuple({"abbreviation": m} for m in v2.ORDER)
+
+    def extra_args(self, ctx):
+        return [ctx.case["abbreviation"]]
+
+    def check_return(self, ctx, value):
+        v = ctx.data["v2"]
+        m = ctx.case["abbreviation"]
+        want = lift(lambda x: N.V2_VALUES[m][x], v.e[m])
+        got = json_name2(value) if isinstance(value, str) else fv_apply(json_name2, value) if isinstance(value, FV) else None
+        if got is None:
+            ctx.fail("post:type", "get_value_description does not return a finite string")
+            return
+        ctx.prove("post:names-effective-value", eq_z3(got, want),
+                  "the description (upper-snake-cased) names the effective value of %s" % m)
+
+
+@register
+class Hash2(Accessor2):
+    qualname = "CVSS2.__hash__"
+
+    def check_return(self, ctx, value):
+        v = ctx.data["v2"]
+        want = S.pyhash(canon2(v))
+        ok = isinstance(value, SInt)
+        ctx.prove("post:hash-of-canonical", (value.z == want.z) if ok else False,
+                  "hash is a function of the canonical vector only")
+        evs = [e for e in ctx.st.events if e[0] == "hash"]
+        ctx.prove("post:single-hash-source", len(evs) == 1, "exactly one string is hashed")
+
+
+@register
+class Eq2(Accessor2):
+    qualname = "CVSS2.__eq__"
+    cases = ({"other": "CVSS2"}, {"other": "str"}, {"other": "None"}, {"other": "CVSS3"})
+
+    def setup(self, ctx):
+        args, kw = Accessor2.setup(self, ctx)
+        kind = ctx.case["other"]
+        if kind == "CVSS2":
+            first = ctx.data["v2"]
+            frozen = ctx.data["frozen_maps"]
+            w = V2(ctx, "p")
+            other = w.obj("done")
+            ctx.data["self"] = args[0]
+            ctx.data["v2"] = first
+            ctx.data["other_view"] = w
+            ctx.data["foreign"] = [other]
+            ctx.data["frozen_maps"] = frozen + [("other.metrics", other.fields["metrics"])]
+        elif kind == "str":
+            other = fresh_str("other")
+        elif kind == "CVSS3":
+            other = SObj(ctx.engine.module("cvss3").globals["CVSS3"])
+            ctx.data["foreign"] = [other]
+        else:
+            other = None
+        return args + [other], kw
+
+    def check_return(self, ctx, value):
+        v = ctx.data["v2"]
+        if ctx.case["other"] != "CVSS2":
+            ctx.prove("post:other-type", value is False, "never equal to a value of another type")
+            return
+        w = ctx.data["other_view"]
+        conj = []
+        for k in v2.ORDER:
+            ga, gb = defined_guard(v.o, k, "ND"), defined_guard(w.o, k, "ND")
+            conj.append(ga == gb)
+            conj.append(z3.Implies(ga, eq_z3(v.o.info[k][2], w.o.info[k][2])))
+        want = z3.And(*conj)
+        got = value.z if isinstance(value, SBool) else z3.BoolVal(value) if isinstance(value, bool) else None
+        if got is None:
+            ctx.fail("post:type", "__eq__ does not return a bool")
+            return
+        ctx.prove("post:eq-iff-same-defined-metrics", got == want,
+                  "a == b exactly when the same metrics are defined with the same values")
+
+
+def json_spec2(v, o, minimal):
+    T = z3.BoolVal(True)
+    items = [("version", T, "2.0"), ("vectorString", T, o.fields["vector"]), ("baseScore", T, v.spec("base"))]
+    for m in v2.BASE:
+        items.append((N.V2_KEYS[m], T, lift(lambda x, m=m: N.V2_VALUES[m][x], v.e[m])))
+    for grp, metrics, sc in (("temporal", v2.TEMPORAL, "temporal"), ("environmental", v2.ENVIRONMENTAL, "env")):
+        if minimal:
+            low = z3.Or(*[defined_guard(v.o, m, "ND") for m in metrics])
+            pres = ("atleast", low, grp)
+        else:
+            pres = T
+        for m in metrics:
+            items.append((N.V2_KEYS[m], pres, lift(lambda x, m=m: N.V2_VALUES[m][x], v.e[m])))
+        # a score field equals the defined score; for an undefined score the field is only typed
+        # by the schema (C10), its value is not constrained by C11
+        items.append((grp + "Score", pres, ("if-defined", v.spec(sc))))
+    return items
+
+
+@register
+class AsJson2(Accessor2):
+    qualname = "CVSS2.as_json"
+    cases = tuple({"sort": s, "minimal": m} for s in (False, True) for m in (False, True)) + ({"sort": "default", "minimal": "default"},)
+
+    def setup(self, ctx):
+        args, kw = Accessor2.setup(self, ctx)
+        if ctx.case["sort"] == "default":
+            return args, kw
+        return args, {"sort": ctx.case["sort"], "minimal": ctx.case["minimal"]}
+
+    def check_return(self, ctx, value):
+        from .cvss3 import schema_obligations
+
+        v, o = ctx.data["v2"], ctx.data["self"]
+        sort = False if ctx.case["sort"] == "default" else ctx.case["sort"]
+        minimal = False if ctx.case["minimal"] == "default" else ctx.case["minimal"]
+        json_doc_obligations(ctx, value, json_spec2(v, o, minimal), sort, None)
+        if isinstance(value, dict):
+            schema_obligations(ctx, value, "2.0")
+            ctx.prove("post:fresh-dict", not ctx.engine.is_global_obj(value) and value is not o.fields.get("metrics"),
+                      "the returned dict is freshly allocated")
